@@ -80,7 +80,14 @@ func init() {
 	// shortest decimal text to denote it comes back as the integer that text
 	// denotes (as a value, or as a bound of a refinement).
 	facet.RegisterKnown("c16LowPrecWholeNumber", func(facetName string, raw json.RawMessage, f *facet.Failure) bool {
-		if f.Kind != "number-lowprec-whole" {
+		switch {
+		case f.Kind == "number-lowprec-whole":
+		case f.Kind == "decode-error" && strings.Contains(f.Msg, "invalid refinements: number lower bound") && strings.Contains(f.Msg, "is greater than upper bound"):
+			// the same root cause seen from the decoder: one bound of an unknown
+			// number is such a low-precision whole number; written as its
+			// shortest decimal text it lands on the other side of the other
+			// bound, and the decoder refuses the now contradictory range
+		default:
 			return false
 		}
 		cs := caseOf(facetName, raw)
